@@ -23,7 +23,7 @@ ID = "C03"
 # C02 libraries are used as they are; translators() fails closed if one is missing.
 C02_NEEDED = ["Lib/C02_Syntax", "Spec/C02_Spec", "Model/C02_Model", "Model/C02_PtrModel", "Model/C02_PtrCache",
               "Proofs/C02_Lists", "Proofs/C02_Inv", "Proofs/C02_Refine", "Proofs/C02_PtrLemmas", "Proofs/C02_PtrRep",
-              "Proofs/C02_PtrSim"]
+              "Proofs/C02_PtrSim", "Proofs/C02_Eqb", "Proofs/C02_Recency"]
 IMPORTS = ("From Boltons Require Import Lib.Prelude Lib.C03_Syntax Lib.C03_Conc Model.C03_Model "
            "Spec.C03_Spec Gen.C03_Gen Check.C03_Check.")
 CASE_TYPE = "c03_case"
